@@ -39,8 +39,8 @@ func writerCases(textLen int, reenter *Op, thorough bool) []wcase {
 				continue
 			}
 			cs = append(cs,
-				wcase{fmt.Sprintf("errk@%d", k), WSpec{Kind: "errk", K: k}, k, "the-writers-error", false},
-				wcase{fmt.Sprintf("short@%d", k), WSpec{Kind: "short", K: k}, k, "", false})
+				wcase{fmt.Sprintf("errk#%d", k), WSpec{Kind: "errk", K: k}, k, "the-writers-error", false},
+				wcase{fmt.Sprintf("short#%d", k), WSpec{Kind: "short", K: k}, k, "", false})
 		}
 	}
 	return cs
@@ -126,8 +126,8 @@ func execRoutes(e *env, op *Op, out *Outcome) {
 		spec := wc.spec
 		fop.W = &spec
 		F := e.execOp(&fop)
-		if i := strings.Index(wc.name, "@"); i > 0 && wc.name[i+1] >= '0' && wc.name[i+1] <= '9' {
-			count("F", wc.name[:i]+"@k(all split points)")
+		if i := strings.Index(wc.name, "#"); i > 0 {
+			count("F", wc.name[:i]+"@every-split-point(thorough)")
 		} else {
 			count("F", wc.name)
 		}
